@@ -14,7 +14,7 @@ for P in "$@"; do
   REPLAY=$(grep '^VIOLATION' work/seedrun_${ID}_$P.log | head -1 | sed 's/.*replay=\([^ ]*\).*/\1/')
   [ -n "$REPLAY" ] && [ -f "$REPLAY" ] && cp "$REPLAY" seeded/$ID/replay_$P.json
 done
-git -C /repo checkout -- . ; git -C /repo clean -fdq
+for k in 1 2 3 4 5 6; do rm -f /repo/.git/index.lock; git -C /repo checkout -- . && break; sleep 3; done; git -C /repo clean -fdq
 RES="${RES%,}}"
 echo "$RES" > seeded/$ID/detection.json
 echo "$ID $RES"
